@@ -68,6 +68,7 @@ func TestVerifC08Backoff(t *testing.T) {
 			traceMark := 0
 			hasOut := map[peer.ID]bool{}
 			joinedNow := map[string]bool{}
+			madeBlind := map[key]bool{}
 			absorb := func(ctx string, op *gsOp) {
 				evs := w.nd.tr.Since(traceMark)
 				traceMark += len(evs)
@@ -129,6 +130,16 @@ func TestVerifC08Backoff(t *testing.T) {
 							classes["deadline_from_heartbeat_prune"]++
 						}
 						lastPrune[k] = e.T
+					case "drop":
+						// a PRUNE made while the node had no negotiated stream to the peer (version unknown: it has the v1.0 form)
+						// and refused by a full queue is kept for retry as it is
+						if e.RPC != nil && !hasOut[e.Peer] {
+							for _, pr := range e.RPC.GetControl().GetPrune() {
+								if pr.Backoff == nil {
+									madeBlind[key{e.Peer, pr.GetTopicID()}] = true
+								}
+							}
+						}
 					case "send":
 						gp := w.byID[e.Peer]
 						if gp == nil || e.RPC == nil {
@@ -158,14 +169,24 @@ func TestVerifC08Backoff(t *testing.T) {
 								if pr.Backoff != nil || len(pr.Peers) > 0 {
 									fail(map[string]string{"kind": "prune_backoff_field", "proto": "v1.0"}, "PRUNE to v1.0 peer %s carries v1.1 fields", gp.p.name)
 								}
+							} else if pr.Backoff == nil && madeBlind[key{e.Peer, pr.GetTopicID()}] {
+								// the retry of such a PRUNE: made before the version was known, sent after
+								classes["prune_retried_made_without_version"]++
+								delete(madeBlind, key{e.Peer, pr.GetTopicID()})
 							} else if pr.Backoff == nil || pr.GetBackoff() != want {
 								// a PRUNE retried after a drop keeps the period of the event that caused it
 								alt := uint64(params.UnsubscribeBackoff / time.Second)
 								if smallQ && pr.Backoff != nil && (pr.GetBackoff() == alt || pr.GetBackoff() == uint64(params.PruneBackoff/time.Second)) {
 									classes["prune_retried"]++
 								} else {
-									fail(map[string]string{"kind": "prune_backoff_field", "proto": ">=v1.1"}, "PRUNE(%s) to %s (%s) states backoff %d (present=%v), want %d s (context %s)",
-										pr.GetTopicID(), gp.p.name, gp.proto, pr.GetBackoff(), pr.Backoff != nil, want, ctx)
+									var life []string
+									for _, le := range w.nd.tr.Events() {
+										if le.Peer == e.Peer && (le.Kind == "newout" || le.Kind == "closedout") {
+											life = append(life, fmt.Sprintf("%s(%s)@+%v", le.Kind, le.Reason, le.T.Sub(w.r.born)))
+										}
+									}
+									fail(map[string]string{"kind": "prune_backoff_field", "proto": ">=v1.1"}, "PRUNE(%s) to %s (%s) states backoff %d (present=%v), want %d s (context %s) at +%v; outbound stream events for that peer: %v",
+										pr.GetTopicID(), gp.p.name, gp.proto, pr.GetBackoff(), pr.Backoff != nil, want, ctx, e.T.Sub(w.r.born), life)
 								}
 							}
 						}
